@@ -243,7 +243,7 @@ func InstEntries() []Entry {
 			f.Kind("InstExtractValue")
 			f.Func("void")
 			type pth struct{ t, path, rt string }
-			ps := []pth{{"{ i32, float }", "0", "i32"}, {"{ i32, float }", "1", "float"}, {"[2 x i32]", "1", "i32"}, {"%S", "1, 1", "float"}, {"%S", "1", "{ i8, float }"}, {"<{ i8, i32 }>", "1", "i32"}, {"{ i32, { i8, [2 x float] } }", "1, 1, 0", "float"}, {"{ i32, { i8, [2 x float] } }", "1, 1", "[2 x float]"}, {"[2 x { i32, <2 x i8> }]", "1, 1", "<2 x i8>"}}
+			ps := []pth{{"{ i32, float }", "0", "i32"}, {"{ i32, float }", "1", "float"}, {"[2 x i32]", "1", "i32"}, {"%S", "1, 1", "float"}, {"%S", "1", "{ i8, float }"}, {"<{ i8, i32 }>", "1", "i32"}, {"{ i32, { i8, [2 x float] } }", "1, 1, 0", "float"}, {"{ i32, { i8, [2 x float] } }", "1, 1", "[2 x float]"}, {"[2 x { i32, <2 x i8> }]", "1, 1", "<2 x i8>"}, {"%S", "1, 0", "i8"}, {"{ { i1, i64 }, { i8, [3 x float] } }", "1, 0", "i8"}, {"{ { i1, i64 }, { i8, [3 x float] } }", "0, 1", "i64"}, {"{ { i1, i64 }, { i8, [3 x float] } }", "1, 1, 2", "float"}, {"[2 x { i32, <2 x i8> }]", "0, 1", "<2 x i8>"}}
 			p := ps[f.N("aggregate+path", len(ps))]
 			if strings.Contains(p.t, "%S") {
 				f.Need(declS)
@@ -258,7 +258,7 @@ func InstEntries() []Entry {
 			f.Kind("InstInsertValue")
 			f.Func("void")
 			type pth struct{ t, et, path string }
-			ps := []pth{{"{ i32, float }", "i32", "0"}, {"{ i32, float }", "float", "1"}, {"[2 x i32]", "i32", "1"}, {"%S", "float", "1, 1"}, {"%S", "{ i8, float }", "1"}, {"<{ i8, i32 }>", "i32", "1"}, {"{ i32, { i8, [2 x float] } }", "float", "1, 1, 0"}}
+			ps := []pth{{"{ i32, float }", "i32", "0"}, {"{ i32, float }", "float", "1"}, {"[2 x i32]", "i32", "1"}, {"%S", "float", "1, 1"}, {"%S", "{ i8, float }", "1"}, {"<{ i8, i32 }>", "i32", "1"}, {"{ i32, { i8, [2 x float] } }", "float", "1, 1, 0"}, {"%S", "i8", "1, 0"}, {"{ { i1, i64 }, { i8, [3 x float] } }", "i64", "0, 1"}, {"{ { i1, i64 }, { i8, [3 x float] } }", "i8", "1, 0"}, {"[2 x { i32, <2 x i8> }]", "<2 x i8>", "0, 1"}}
 			p := ps[f.N("aggregate+path", len(ps))]
 			if strings.Contains(p.t, "%S") {
 				f.Need(declS)
@@ -559,4 +559,16 @@ func InstEntries() []Entry {
 		}},
 	)
 	return es
+}
+
+// SetWide extends the type universe (used by C06/C07, which are about typing): more widths, all
+// floating-point kinds in vectors, more address spaces, more vector lengths and scalable shapes.
+func SetWide() {
+	TInt = append(TInt, "i7", "i16", "i65", "i1024")
+	TIntVec = append(TIntVec, "<1 x i64>", "<16 x i1>", "<vscale x 1 x i8>", "<vscale x 16 x i64>", "<3 x i128>")
+	TFPVec = append(TFPVec, "<4 x half>", "<2 x fp128>", "<vscale x 4 x float>", "<1 x x86_fp80>")
+	TPtr = append(TPtr, "i8 addrspace(5)*", "{ i32, i8 }*", "[4 x i32]*", "void ()*", "i32 (i8*, ...)*", "<2 x i32>*", "%S addrspace(2)*")
+	TPtrVec = append(TPtrVec, "<4 x i8 addrspace(1)*>", "<1 x %S*>", "<vscale x 4 x i32 addrspace(3)*>")
+	TAgg = append(TAgg, "[0 x i8]", "{}", "{ %S, [2 x %S] }", "[3 x <2 x i32>]", "{ i8*, i32 (i32)* }")
+	TFirstCl = append(TFirstCl, "i1", "half", "fp128", "i8 addrspace(1)*", "<2 x i8*>", "<vscale x 2 x double>", "[2 x %S]", "<{ i8, i32 }>", "i32 (i32)*", "x86_fp80", "{ i32, { i8, [2 x float] } }", "i1024")
 }
